@@ -1,3 +1,6 @@
 import FrappyProofs.Lemmas.Logging
 import FrappyProofs.Lemmas.Rotate
+import FrappyProofs.Lemmas.Update
+import FrappyProofs.Lemmas.UpdateSys
+import FrappyProofs.Props.C05
 import FrappyProofs.Props.C20
